@@ -39,7 +39,8 @@ let () =
        let lst k i = match geto (Printf.sprintf "%s%d" k i) with Some l -> l | None -> [] in
        (* SetMode: N2kSource = src + i (uint8_t), AddressClaimEndSource follows; timers are default constructed (disabled) *)
        let devs = List.init ndev (fun i -> mk_dev w64 (zi ((src + i) land 255)) (name i) (lst "tx" i)) in
-       let rcfg = { c_only_known = (get "ok" "0" = "1"); c_iso_handler = geto "iso"; c_prodinfo = def_prodinfo; c_confinfo = def_confinfo; c_hb_on = hb } in
+       let rcfg = { c_only_known = (get "ok" "0" = "1"); c_iso_handler = geto "iso"; c_prodinfo = def_prodinfo; c_confinfo = def_confinfo; c_hb_on = hb;
+                    c_inst1 = []; c_inst2 = []; c_manuf = str_bytes "NMEA2000 library, https://github.com/ttlappalainen/NMEA2000"; c_inst_changed = false } in
        let start = if cold then t0 else Z.sub t0 (zi 1000) in
        let r0 = cold_node w64 (zi mode) start (zi (q * ndev)) (zi nsl) pc devs (List.init ndev (fun i -> lst "rx" i)) rcfg in
        let r0 = if cold then r0 else prelude gf_none r0 hb t0 in
@@ -74,7 +75,7 @@ let () =
        let n = r.rn in
        if int_of_z n.n_open = 0 || int_of_z n.n_q.q_max = 0 then Printf.printf "| open=%s q=-" (string_of_z n.n_open)
        else Printf.printf "| open=%s q=%s/%s/%s" (string_of_z n.n_open) (string_of_z n.n_q.q_max) (string_of_z n.n_q.q_rd) (string_of_z n.n_q.q_wr);
-       Printf.printf " ac=%s dic=%s" (if n.n_addr_changed then "1" else "0") (if r.r_devinfo_changed then "1" else "0");
+       Printf.printf " ac=%s dic=%s idc=%s" (if n.n_addr_changed then "1" else "0") (if r.r_devinfo_changed then "1" else "0") (if r.r_cfg.c_inst_changed then "1" else "0");
        List.iteri (fun i d ->
            let x = List.nth r.rx_dev i in
            Printf.printf " dev%d{src=%s end=%s name=%s claim=%s tp=%s dt=%s pc=%s pp=%s pf=%s hb=%s/%s/%s/%s cells=%s}" i (string_of_z d.d_src) (string_of_z d.d_claim_end) (hex_of_z 1 d.d_name)
